@@ -143,6 +143,26 @@ def body(case, rec):
             raise Violation(f"--no-clobber: exit status 0 although {S} already existed")
         if not any(str(outd / n) in msg for n in S):
             raise Violation(f"--no-clobber: error output names none of the colliding files {S}: {msg[-300:]!r}")
+        # ---- no-clobber with bystanders only: files in the output directory that this run does not write (reports of an
+        # earlier curation of the same specimen, notes) - nothing collides, and they must be left exactly as they are
+        cands = ["x.2.chr_report.csv", "README.txt", "x.1.log", "x.2.log.bak"] + [n.split(".curated.")[0] + ".chromosome.list.csv" for n in names if ".curated." in n]
+        by = sorted({c for c in cands if c not in O})
+        if case.get("bystanders", True) and by:
+            wipe(outd)
+            kept = {}
+            for k, n in enumerate(by):
+                (outd / n).write_bytes(sentinel("short", b"", k))
+                os.utime(outd / n, (1_000_000_000 + k, 1_000_000_000 + k))
+                kept[n] = ((outd / n).read_bytes(), (outd / n).stat().st_mtime_ns)
+            run([*args, "--no-clobber"], sub)
+            for n, (data, mt) in kept.items():
+                p = outd / n
+                if not p.exists():
+                    raise Violation(f"--no-clobber: {n}, which existed before the run and is not one of its outputs {names}, was removed")
+                if p.read_bytes() != data or p.stat().st_mtime_ns != mt:
+                    raise Violation(f"--no-clobber: {n}, which existed before the run and is not one of its outputs, was altered")
+            if any(n.endswith(".csv") for n in by):
+                classes.add("bystander_csv")
         # ---- clobber (default)
         wipe(outd)
         for k, n in enumerate(S):
